@@ -1,6 +1,11 @@
 """Claim texts for MANIFEST.json. NOT_APPLICABLE holds every property not (yet) claimed, with the reason."""
 
 META = {
+    "C01": {
+        "text": "Bounded symbolic model checking of the real Storage.Create/removeLeastRecent over the memory driver from an arbitrary well-formed ledger (symbolic strictly increasing revisions as 64-bit bit-vectors, symbolic statuses with at most one deployed, symbolic MaxHistory): the solver shows for all such ledgers within the bound that pruning removes a prefix of the non-deployed revisions, never the deployed one, and leaves at most N (N+1 only when only the deployed old revision survives).",
+        "design_ref": "DESIGN.md §4 C01 (H01-prune)",
+        "note": "Pruning clause of C01 only so far; the operation-level clauses (install/upgrade/rollback/uninstall histories, faults, crashes) are claimed only once H01-hist lands. Bounds: ≤3 (quick) / ≤5 (thorough) existing revisions ≤97, MaxHistory ≤4/≤6, 4/9 statuses. Memory driver.",
+    },
     "C04": {
         "text": "Bounded symbolic model checking of the real strvals parser: for every --set string of the documented forms built from symbolic atoms, and for every byte string up to the bound over the grammar's alphabet, the solver shows the parsed structure is exactly the named path and that unrelated entries of the destination are untouched. Exhaustive over all byte values within the bound, which a table of examples cannot be.",
         "design_ref": "DESIGN.md §4 C04",
@@ -19,4 +24,4 @@ META = {
 }
 
 _NYB = "harness not built yet in this session (design in DESIGN.md §4); not claimed until its check runs clean"
-NOT_APPLICABLE = {p: _NYB for p in ["C01", "C02", "C03", "C05", "C06", "C07", "C08", "C09", "C11", "C12", "C13", "C14", "C15", "C16", "C17", "C18", "C19"]}
+NOT_APPLICABLE = {p: _NYB for p in ["C02", "C03", "C05", "C06", "C07", "C08", "C09", "C11", "C12", "C13", "C14", "C15", "C16", "C17", "C18", "C19"]}
